@@ -27,25 +27,39 @@ struct Cfg {
     od: Option<(f32, bool)>,
     cs: Option<(f32, bool)>,
     hp: Option<(f32, bool)>,
+    /// order in which mode / mods / clock_rate / ar / od / cs / hp are handed to the builder
+    order: [u8; 7],
 }
 
 impl Cfg {
     fn builder(&self) -> BeatmapAttributesBuilder {
-        let mut b = BeatmapAttributesBuilder::new().mode(self.mode, self.is_convert).mods(self.mods.to_gamemods(self.mode));
-        if let Some(c) = self.clock {
-            b = b.clock_rate(c);
-        }
-        if let Some((v, f)) = self.ar {
-            b = b.ar(v, f);
-        }
-        if let Some((v, f)) = self.od {
-            b = b.od(v, f);
-        }
-        if let Some((v, f)) = self.cs {
-            b = b.cs(v, f);
-        }
-        if let Some((v, f)) = self.hp {
-            b = b.hp(v, f);
+        // the setters are independent of each other: they are applied in the (random, per case) order `self.order`
+        let mut b = BeatmapAttributesBuilder::new();
+        for step in self.order {
+            b = match step {
+                0 => b.mode(self.mode, self.is_convert),
+                1 => b.mods(self.mods.to_gamemods(self.mode)),
+                2 => match self.clock {
+                    Some(c) => b.clock_rate(c),
+                    None => b,
+                },
+                3 => match self.ar {
+                    Some((v, f)) => b.ar(v, f),
+                    None => b,
+                },
+                4 => match self.od {
+                    Some((v, f)) => b.od(v, f),
+                    None => b,
+                },
+                5 => match self.cs {
+                    Some((v, f)) => b.cs(v, f),
+                    None => b,
+                },
+                _ => match self.hp {
+                    Some((v, f)) => b.hp(v, f),
+                    None => b,
+                },
+            };
         }
         b
     }
@@ -113,7 +127,12 @@ pub fn case(ctx: &mut Ctx, idx: u64) {
     let mode = *rng.pick(&MODES);
     let mname = mode_name(mode);
     let is_convert = mode != GameMode::Osu && rng.chance(0.5);
+    let mut order = [0u8, 1, 2, 3, 4, 5, 6];
+    if rng.chance(0.7) {
+        rng.shuffle(&mut order);
+    }
     let base = Cfg {
+        order,
         mode,
         is_convert,
         mods: gen_mods(&mut rng, true),
